@@ -71,17 +71,31 @@ fn digit(code: u64, k: usize, base: u64) -> u32 {
 }
 
 // ---------- drain_filter ----------
-fn df_reference(n: usize, code: u64, take: usize) -> Outcome {
+/// `pk`: the predicate call (0-based) that panics AFTER it has done what the script says to its argument (usize::MAX: none).
+/// The element it was looking at stays in the vector as the predicate left it, and so does everything behind it; the
+/// iterator's drop then only closes the gap.
+fn df_reference(n: usize, code: u64, take: usize, pk: usize) -> Outcome {
   reset();
   let mut v: Vec<E> = (0..n as i64).map(fresh).collect();
   let mut owned = fresh(-1);
   let mut yields: Vec<E> = Vec::new();
   let mut kept: Vec<E> = Vec::new();
   let mut calls = 0usize;
+  let mut stopped = false;
   for mut e in v.drain(..) {
+    if stopped {
+      kept.push(e);
+      continue;
+    }
     let d = digit(code, calls, 8);
+    let this_call = calls;
     calls += 1;
     act(&mut e, d % 4, &mut owned);
+    if this_call == pk {
+      stopped = true;
+      kept.push(e);
+      continue;
+    }
     if d / 4 == 1 {
       if yields.len() < take {
         yields.push(e); // handed to the caller, who keeps it until the end
@@ -100,7 +114,7 @@ fn df_reference(n: usize, code: u64, take: usize) -> Outcome {
   drop(v);
   Outcome { yields: out_y, contents: out_c, drops: drops() }
 }
-fn df_minivec(n: usize, code: u64, take: usize) -> Outcome {
+fn df_minivec(n: usize, code: u64, take: usize, pk: usize) -> Outcome {
   reset();
   let mut v: MiniVec<E> = MiniVec::new();
   for i in 0..n as i64 {
@@ -111,19 +125,27 @@ fn df_minivec(n: usize, code: u64, take: usize) -> Outcome {
   {
     let mut calls = 0usize;
     let owned_ref = &mut owned;
-    let mut it = v.drain_filter(|x: &mut E| {
-      let d = digit(code, calls, 8);
-      calls += 1;
-      act(x, d % 4, owned_ref);
-      d / 4 == 1
-    });
-    while yields.len() < take {
-      match it.next() {
-        Some(e) => yields.push(e),
-        None => break,
+    let yields_ref = &mut yields;
+    let vref = &mut v;
+    let _ = std::panic::catch_unwind(std::panic::AssertUnwindSafe(move || {
+      let mut it = vref.drain_filter(|x: &mut E| {
+        let d = digit(code, calls, 8);
+        let this_call = calls;
+        calls += 1;
+        act(x, d % 4, owned_ref);
+        if this_call == pk {
+          panic!("scripted predicate panic");
+        }
+        d / 4 == 1
+      });
+      while yields_ref.len() < take {
+        match it.next() {
+          Some(e) => yields_ref.push(e),
+          None => break,
+        }
       }
-    }
-    drop(it);
+      drop(it);
+    }));
   }
   let out_y = show(&yields);
   let out_c = show(&v);
@@ -234,14 +256,19 @@ fn report(name: &str, r: &Outcome, m: &Outcome, total: &mut u64, bad: &mut u64) 
 }
 
 pub fn run() -> i32 {
+  std::panic::set_hook(Box::new(|_| {}));
   let (mut total, mut bad) = (0u64, 0u64);
   // drain_filter: n elements, one script digit per predicate call (n calls), `take` elements consumed before the drop
   for n in 0..=4usize {
     for code in 0..8u64.pow(n as u32) {
       for take in [0usize, 1, 2, 9] {
-        let r = df_reference(n, code, take);
-        let m = df_minivec(n, code, take);
-        report(&format!("drain_filter n={} script={:o} take={}", n, code, take), &r, &m, &mut total, &mut bad);
+        // without a panic, and with the predicate panicking (after its write) at each of its calls
+        for pk in std::iter::once(usize::MAX).chain(0..n) {
+          let r = df_reference(n, code, take, pk);
+          let m = df_minivec(n, code, take, pk);
+          report(&format!("drain_filter n={} script={:o} take={} predicate-panics-at-call={}", n, code, take, if pk == usize::MAX { -1 } else { pk as i64 }),
+                 &r, &m, &mut total, &mut bad);
+        }
       }
     }
   }
